@@ -103,6 +103,11 @@ fn in_pool(p: *mut u8) -> bool {
     b > 1 && (p as usize) >= b && (p as usize) < b + (2 * SLOTS + 1) * PAGE
 }
 
+/// true if `p` was served by the guard-page allocator
+pub fn is_guarded(p: *const u8) -> bool {
+    in_pool(p as *mut u8) || in_region(p as *mut u8)
+}
+
 unsafe fn pool_free(p: *mut u8) {
     unsafe {
         let b = POOL.load(Ordering::Acquire);
